@@ -272,11 +272,13 @@ class Check:
         ev = {'property_id': self.pid, 'tier': self.tier, 'seed': int(self.seed), 'level': level, 'coverage': cov,
               'assumptions': self.assumptions, 'wall_s': round(wall, 2), 'violations': len(self.violations),
               'known_findings_hit': len(self.known_hits), 'notes': self.notes}
-        os.makedirs(EVIDENCE_DIR, exist_ok=True)
-        tmp = os.path.join(EVIDENCE_DIR, f'{self.pid}.json.tmp')
+        # coverage beyond the listed properties (ids X..) keeps its evidence apart from the properties' evidence
+        edir = EVIDENCE_DIR if not self.pid.startswith('X') else os.path.join(ROOT, 'extras', 'evidence')
+        os.makedirs(edir, exist_ok=True)
+        tmp = os.path.join(edir, f'{self.pid}.json.tmp')
         with open(tmp, 'w') as f:
             json.dump(ev, f, indent=1, default=repr)
-        os.replace(tmp, os.path.join(EVIDENCE_DIR, f'{self.pid}.json'))
+        os.replace(tmp, os.path.join(edir, f'{self.pid}.json'))
         seen = set()
         for f, detail in self.known_hits:
             key = f.get('id') or json.dumps(f.get('signature'), sort_keys=True)
